@@ -450,13 +450,25 @@ func repoGarbageCollect(repo Repo, conf config.Config, index types.Index, locked
 		}
 	}
 	seen := map[digest.Digest]bool{}
+	// a digest may be seen as a layer or config before it is met as a manifest, track what has been walked separately
+	type walkKey struct {
+		dig  digest.Digest
+		kind int
+	}
+	walked := map[walkKey]bool{}
 	// walk all manifests to note seen digests
 	for len(manifests) > 0 {
 		// work from tail to make deletes easier
 		d := manifests[len(manifests)-1]
 		manifests = manifests[:len(manifests)-1]
 		inIndex[d.Digest] = true
-		if seen[d.Digest] {
+		wk := walkKey{dig: d.Digest}
+		if types.MediaTypeIndex(d.MediaType) {
+			wk.kind = 1
+		} else if types.MediaTypeImage(d.MediaType) {
+			wk.kind = 2
+		}
+		if walked[wk] {
 			continue
 		}
 		br, err := repo.blobGet(d.Digest, locked)
@@ -464,6 +476,7 @@ func repoGarbageCollect(repo Repo, conf config.Config, index types.Index, locked
 			continue
 		}
 		seen[d.Digest] = true
+		walked[wk] = true
 		// parse manifests for descriptors (manifests, config, layers)
 		if types.MediaTypeIndex(d.MediaType) {
 			man := types.Index{}
